@@ -233,6 +233,8 @@ struct CallSpec {
     cut: u64,
     /// 0..31: the status is STATUSES[status]; 32..63: one of WIDE_STATUSES (other 2xx, 4xx, 5xx codes)
     wide: u64,
+    /// 0: the reply announces its Content-Length; 1: no length announced (chunked / close-delimited framing)
+    framing: u64,
 }
 
 /// "every 4xx or 5xx status" / "2xx": codes beyond the nine listed ones (no 1xx/3xx; 205 has no body by definition)
@@ -267,6 +269,7 @@ fn decode_call(ch: &mut Chooser, n_ops: usize) -> CallSpec {
         latency: [ch.choose("latency_us", 5000), ch.choose("latency_us", 5000), ch.choose("latency_us", 5000)],
         cut: ch.choose("cut_at", 1 << 20),
         wide: ch.choose("wide_status", 64),
+        framing: ch.choose("framing_without_content_length", 2),
     }
 }
 
@@ -283,7 +286,7 @@ fn decode_scenario(ch: &mut Chooser, infos: &[ClientInfo]) -> Scenario {
 }
 
 fn call_values(c: &CallSpec) -> Vec<u64> {
-    vec![c.op as u64, c.variant, c.mutmask, c.status as u64, c.body_kind as u64, c.transport as u64, c.trunc, c.splits[0], c.splits[1], c.splits[2], c.latency[0], c.latency[1], c.latency[2], c.cut, c.wide]
+    vec![c.op as u64, c.variant, c.mutmask, c.status as u64, c.body_kind as u64, c.transport as u64, c.trunc, c.splits[0], c.splits[1], c.splits[2], c.latency[0], c.latency[1], c.latency[2], c.cut, c.wide, c.framing]
 }
 
 fn encode_single(client: usize, creds: u64, c: &CallSpec) -> Vec<u64> {
@@ -481,6 +484,7 @@ fn run_scenario(infos: &[ClientInfo], insts: &[Instances], sc: &Scenario, ch: &m
             splits,
             cut_at: if body.is_empty() { 0 } else { (c.cut as usize) % body.len() },
             latency: c.latency,
+            announce_length: c.framing == 0,
         });
         metas.push((opname, positions, body, exact));
         preps.push(p);
@@ -567,7 +571,7 @@ fn run_scenario(infos: &[ClientInfo], insts: &[Instances], sc: &Scenario, ch: &m
             facts.findings.push(Finding { class: "envelope-check-ignores-part".into(), key: "envelope-check-ignores-part".into(), detail: format!("{id}: check_restrictions on the envelope passes although the check of its own header/body part fails ({})", p.parts_check.clone().unwrap_err()) });
         }
         let why_restricted = p.twin_check.clone().err().or(p.parts_check.clone().err()).unwrap_or_default();
-        facts.calls_json.push(json!({"op": id, "request_variant": c.variant, "mutated_positions": positions, "twin_check": p.twin_check.clone().err(), "status": status, "body": BODY_KINDS[c.body_kind], "transport": TRANSPORTS[c.transport], "credentials": creds_name(sc.creds), "connections": connects, "response_body": body.chars().take(700).collect::<String>(), "response_body_full": if property == "calib" { Value::Null } else { Value::from(body.clone()) }, "result_class": match &result { Some(CallResult::Value(_)) => "value".to_string(), Some(CallResult::Error { variant, .. }) => (*variant).to_string(), None => "pending".to_string() }, "result": match &result { Some(CallResult::Value(_)) => "Ok(value)".to_string(), Some(CallResult::Error { variant, text }) => format!("Err({variant}: {})", text.chars().take(80).collect::<String>()), None => "not completed".to_string() }}));
+        facts.calls_json.push(json!({"op": id, "request_variant": c.variant, "mutated_positions": positions, "twin_check": p.twin_check.clone().err(), "status": status, "body": BODY_KINDS[c.body_kind], "transport": TRANSPORTS[c.transport], "content_length_announced": c.framing == 0, "credentials": creds_name(sc.creds), "connections": connects, "response_body": body.chars().take(700).collect::<String>(), "response_body_full": if property == "calib" { Value::Null } else { Value::from(body.clone()) }, "result_class": match &result { Some(CallResult::Value(_)) => "value".to_string(), Some(CallResult::Error { variant, .. }) => (*variant).to_string(), None => "pending".to_string() }, "result": match &result { Some(CallResult::Value(_)) => "Ok(value)".to_string(), Some(CallResult::Error { variant, text }) => format!("Err({variant}: {})", text.chars().take(80).collect::<String>()), None => "not completed".to_string() }}));
 
         // N4: bounded progress / completion
         if result.is_none() {
@@ -625,7 +629,7 @@ fn run_scenario(infos: &[ClientInfo], insts: &[Instances], sc: &Scenario, ch: &m
             (want, got) => facts.findings.push(Finding { class: "wrong-credentials".into(), key: format!("wrong-credentials:{}", if want.is_none() { "sent-unconfigured" } else if got.is_none() { "configured-not-sent" } else { "altered" }), detail: format!("{id}: configured {:?}, sent {:?}", want.as_ref().map(|c| (&c.0, c.1.len())), got.as_ref().map(|c| (&c.0, c.1.as_ref().map(String::len)))) }),
         }
         // N3: result dichotomy
-        let delivered_full = matches!(c.transport, 0 | 4);
+        let delivered_full = matches!(c.transport, 0 | 4) || (c.transport == 5 && c.framing == 1);
         let status_ok = (200..300).contains(&status) && status != 204 && status != 205;
         let gated_ok = delivered_full && status_ok && matches!(c.body_kind, 0 | 1);
         let gated_err = !delivered_full || (400..600).contains(&status) || matches!(c.body_kind, 2 | 3 | 4) || status == 204;
@@ -847,7 +851,7 @@ fn build_tapes(infos: &[ClientInfo], property: &str, tier: &str, seed: u64) -> (
     let thorough = tier == "thorough";
     let mut tapes = Vec::new();
     let mut n_enum = 0u64;
-    let base = CallSpec { op: 0, variant: 0, mutmask: 0, status: 0, body_kind: 0, transport: 0, trunc: 0, splits: [0; 3], latency: [0; 3], cut: 0, wide: 0 };
+    let base = CallSpec { op: 0, variant: 0, mutmask: 0, status: 0, body_kind: 0, transport: 0, trunc: 0, splits: [0; 3], latency: [0; 3], cut: 0, wide: 0, framing: 0 };
     if property == "C16" {
         // the script product, one call at a time, for every operation of every client
         for (ci, info) in infos.iter().enumerate() {
@@ -886,6 +890,26 @@ fn build_tapes(infos: &[ClientInfo], property: &str, tier: &str, seed: u64) -> (
                     c.trunc = if t < 4 { t } else if t < 20 { (1 << 20) - 1 - (t - 4) } else { Rng::derive(seed, "net-trunc", t + ((op as u64) << 10)).below(1 << 20) };
                     tapes.push(encode_single(ci, 0, &c));
                     n_enum += 1;
+                }
+                for status in 0..9 {
+                    for body in 0..8 {
+                        for transport in [0usize, 4, 3, 5] {
+                            if !thorough && (status + body + transport) % 2 == 1 {
+                                continue;
+                            }
+                            let mut c = base.clone();
+                            c.op = op;
+                            c.variant = 1;
+                            c.status = status;
+                            c.body_kind = body;
+                            c.transport = transport;
+                            c.framing = 1;
+                            c.splits = [7, 90, 300];
+                            c.cut = 40;
+                            tapes.push(encode_single(ci, 0, &c));
+                            n_enum += 1;
+                        }
+                    }
                 }
                 for w in 32..64u64 {
                     for body in [0usize, 2] {
@@ -1034,21 +1058,24 @@ fn main() {
             eprintln!("no client {want}");
             std::process::exit(2);
         };
-        let base = CallSpec { op: 0, variant: 1, mutmask: 0, status: 0, body_kind: 0, transport: 0, trunc: 40, splits: [5, 60, 120], latency: [0; 3], cut: 30, wide: 0 };
+        let base = CallSpec { op: 0, variant: 1, mutmask: 0, status: 0, body_kind: 0, transport: 0, trunc: 40, splits: [5, 60, 120], latency: [0; 3], cut: 30, wide: 0, framing: 0 };
         let mut out = Vec::new();
         for status in 0..9 {
             for body in 0..8 {
                 for transport in 0..6 {
-                    for creds in [0u64, 1] {
+                    for creds in [0u64, 1, 2] {
                         let mut c = base.clone();
                         c.status = status;
                         c.body_kind = body;
                         c.transport = transport;
+                        // the third pass repeats the script without an announced Content-Length
+                        c.framing = u64::from(creds == 2);
+                        let creds = creds % 2;
                         let tape = encode_single(ci, creds, &c);
                         let (facts, _, _) = run_inline(&infos, &insts, &tape, "C16"); // same thread: sim::requests() below
                         let call = &facts.calls_json[0];
                         let reqs = sim::requests();
-                        out.push(json!({"status": STATUSES[status], "body_kind": BODY_KINDS[body], "transport": TRANSPORTS[transport], "credentials": creds_of(creds),
+                        out.push(json!({"status": STATUSES[status], "body_kind": BODY_KINDS[body], "transport": TRANSPORTS[transport], "announce_length": c.framing == 0, "credentials": creds_of(creds),
                             "response_body": call["response_body_full"], "cut_at": 30, "splits": [5, 60, 120],
                             "request_xml": insts[ci].request(infos[ci].ops[0], 1, 0).0,
                             "stub_result": call["result_class"], "stub_connections": call["connections"],
